@@ -613,7 +613,44 @@ class ExprMixin:
         raise Unsupported(f"lambda as a value at line {n.lineno}")
 
     def ev_ListComp(self, st, n):
-        return self.comprehension(st, n, "list")
+        try:
+            return self.comprehension(st.copy(), n, "list")
+        except Unsupported:
+            return self.comp_as_loop(st, n, "list")
+
+    def ev_DictComp(self, st, n):
+        return self.comp_as_loop(st, n, "dict")
+
+    def comp_as_loop(self, st, n, kind):
+        """[f(x) for x in xs if c]  ==  _comp = []; for x in xs: if c: _comp.append(f(x))   (exact desugaring;
+        the loop may carry an invariant from the sidecar, keyed by the target text, with `_comp` the accumulator)"""
+        if len(n.generators) != 1:
+            raise Unsupported("nested comprehension")
+        g = n.generators[0]
+        acc = "_comp"
+        if kind == "dict":
+            body = ast.Assign(targets=[ast.Subscript(value=ast.Name(id=acc, ctx=ast.Load()), slice=n.key, ctx=ast.Store())], value=n.value)
+        else:
+            body = ast.Expr(value=ast.Call(func=ast.Attribute(value=ast.Name(id=acc, ctx=ast.Load()), attr="append", ctx=ast.Load()),
+                                           args=[n.elt], keywords=[]))
+        for c in reversed(g.ifs):
+            body = ast.If(test=c, body=[body], orelse=[])
+        loop = ast.For(target=g.target, iter=g.iter, body=[body], orelse=[])
+        for x in ast.walk(loop):
+            x.lineno = n.lineno; x.col_offset = 0; x.end_lineno = n.lineno; x.end_col_offset = 0
+        saved = {k: st.env.get(k) for k in [acc] + [t.id for t in ast.walk(g.target) if isinstance(t, ast.Name)]}
+        st.env[acc] = self.new_dict(st, z3.Empty(SeqV), z3.K(Val, NONE), "dict") if kind == "dict" else self.new_list(st, z3.Empty(SeqV), kind)
+        out = []
+        for r in self.ex_For(st, loop):
+            if r.ok:
+                val = r.st.env.get(acc)
+                for k, v in saved.items():      # comprehension variables do not leak
+                    if v is None: r.st.env.pop(k, None)
+                    else: r.st.env[k] = v
+                out.append(Res(r.st, val))
+            else:
+                out.append(r)
+        return out
 
     def ev_SetComp(self, st, n):
         return self.comprehension(st, n, "set")
